@@ -299,6 +299,10 @@ func specOffersPMD(lines []string) (offered bool, wf bool) {
 		start := 0
 		inq := false
 		for i := 0; i <= len(l); i++ {
+			if i < len(l) && inq && l[i] == '\\' {
+				i++ // quoted-pair: the next byte is escaped (RFC 7230 3.2.6)
+				continue
+			}
 			if i < len(l) && l[i] == '"' {
 				inq = !inq
 			}
@@ -394,7 +398,7 @@ func vfH_offer_variants() {
 				if i > 0 {
 					line += vfOWS() + "," + vfOWS()
 				}
-				switch vfChoose(4) {
+				switch vfChoose(5) {
 				case 0:
 					line += "permessage-deflate"
 				case 1:
@@ -413,6 +417,9 @@ func vfH_offer_variants() {
 					line += "x-webkit-deflate-frame"
 				case 3:
 					line += "permessage-deflat"
+				case 4:
+					// an escaped quote inside a quoted parameter must not end it
+					line += "foo; x=\"a\\\", permessage-deflate, b=\\\"" + vfString(1) + "\""
 				}
 			}
 			lines = append(lines, line)
